@@ -39,7 +39,7 @@ SPEC = {
                   "state.rips_has_bars_dim1": 900, "state.rips_has_bars_dim2": 70, "state.diagrams_differ.dim1": 200,
                   "validity.eps_ge1": 400, "validity.eps_lt1_bounded": 450, "state.vertices_dropped_by_mini": 250,
                   "start.target_reached": 4000, "ctor.distance_matrix": 2000, "ctor.points_distance": 2000,
-                  "n.25_48": 120, "_distinct_nontrivial": 2300},
+                  "n.25_48": 120, "scale.distances_below_1e-8": 500, "scale.pow2_positive": 500, "_distinct_nontrivial": 2300},
         "thorough": {"guarantee.cases": 90000, "state.sparse_strictly_smaller": 50000, "state.some_value_raised": 45000,
                      "state.blocker_removed_simplices": 6000, "cmp.bottleneck.dim1": 60000, "cmp.bottleneck.dim2": 30000,
                      "state.rips_has_bars_dim2": 2000, "state.diagrams_differ.dim1": 6000,
